@@ -10,7 +10,7 @@ Definition coll_ok (cfg : config) (L : list (Z * lendpos)) (b : borrowpos) : Pro
   0 < b_in b /\
   exists l pr, zget L (b_lend b) = Some l /\ zget (c_pairs cfg) (b_pair b) = Some pr /\ l_asset l = pr_in pr.
 Definition Side (cfg : config) (L : list (Z * lendpos)) (B : list (Z * borrowpos)) : Prop :=
-  forall j b, zget B j = Some b -> coll_ok cfg L b.
+  forall j b, zget B j = Some b -> b_liq b = false -> coll_ok cfg L b.
 
 Definition GoodB cfg L B S nl nb : Prop := InvB cfg L B S nl nb /\ Side cfg L B.
 Definition Good (cfg : config) (st : state) : Prop :=
@@ -25,38 +25,46 @@ Section SideTransitions.
 
   Lemma S_lend_upd i l l' : zget L i = Some l -> l_asset l' = l_asset l -> Side cfg (zset L i l') B.
   Proof.
-    intros Hg Ha j b Hb. destruct (HS j b Hb) as (Hpos & l0 & pr & Hl0 & Hpr & Heq). split; [exact Hpos|].
+    intros Hg Ha j b Hb Hq. destruct (HS j b Hb Hq) as (Hpos & l0 & pr & Hl0 & Hpr & Heq). split; [exact Hpos|].
     destruct (Z.eqb_spec i (b_lend b)) as [E|E].
     - exists l', pr. rewrite <- E, zget_zset_same. rewrite <- E, Hg in Hl0. injection Hl0 as <-.
       repeat split; [exact Hpr|congruence].
     - exists l0, pr. rewrite zget_zset_other by exact E. repeat split; assumption.
   Qed.
 
-  Lemma S_lend_new i l : (forall j b, zget B j = Some b -> b_lend b <> i) -> Side cfg (zset L i l) B.
+  Lemma S_lend_new i l : (forall j b, zget B j = Some b -> b_liq b = false -> b_lend b <> i) -> Side cfg (zset L i l) B.
   Proof.
-    intros Hn j b Hb. destruct (HS j b Hb) as (Hpos & l0 & pr & Hl0 & Hpr & Heq). split; [exact Hpos|].
-    exists l0, pr. rewrite zget_zset_other by (intros E; exact (Hn j b Hb (eq_sym E))). repeat split; assumption.
+    intros Hn j b Hb Hq. destruct (HS j b Hb Hq) as (Hpos & l0 & pr & Hl0 & Hpr & Heq). split; [exact Hpos|].
+    exists l0, pr. rewrite zget_zset_other by (intros E; exact (Hn j b Hb Hq (eq_sym E))). repeat split; assumption.
   Qed.
 
-  Lemma S_lend_del i : (forall j b, zget B j = Some b -> b_lend b <> i) -> Side cfg (zdel L i) B.
+  Lemma S_lend_del i : (forall j b, zget B j = Some b -> b_liq b = false -> b_lend b <> i) -> Side cfg (zdel L i) B.
   Proof.
-    intros Hn j b Hb. destruct (HS j b Hb) as (Hpos & l0 & pr & Hl0 & Hpr & Heq). split; [exact Hpos|].
-    exists l0, pr. rewrite zget_zdel. destruct (Z.eqb_spec i (b_lend b)) as [E|E]; [exfalso; exact (Hn j b Hb (eq_sym E))|].
+    intros Hn j b Hb Hq. destruct (HS j b Hb Hq) as (Hpos & l0 & pr & Hl0 & Hpr & Heq). split; [exact Hpos|].
+    exists l0, pr. rewrite zget_zdel. destruct (Z.eqb_spec i (b_lend b)) as [E|E]; [exfalso; exact (Hn j b Hb Hq (eq_sym E))|].
     repeat split; assumption.
   Qed.
 
   Lemma S_bor_upd j b b' :
-    zget B j = Some b -> b_lend b' = b_lend b -> b_pair b' = b_pair b -> 0 < b_in b' -> Side cfg L (zset B j b').
+    zget B j = Some b -> b_lend b' = b_lend b -> b_pair b' = b_pair b -> b_liq b' = b_liq b ->
+    (b_liq b = false -> 0 < b_in b') -> Side cfg L (zset B j b').
   Proof.
-    intros Hg El Ep Hpos j' x. rewrite zget_zset. destruct (Z.eqb_spec j j') as [<-|]; [|apply HS].
-    intros H. injection H as <-. destruct (HS j b Hg) as (_ & l0 & pr & Hl0 & Hpr & Heq).
-    split; [exact Hpos|]. exists l0, pr. rewrite El, Ep. repeat split; assumption.
+    intros Hg El Ep Eq Hpos j' x. rewrite zget_zset. destruct (Z.eqb_spec j j') as [<-|]; [|apply HS].
+    intros H. injection H as <-. rewrite Eq. intros Hq. destruct (HS j b Hg Hq) as (_ & l0 & pr & Hl0 & Hpr & Heq).
+    split; [exact (Hpos Hq)|]. exists l0, pr. rewrite El, Ep. repeat split; assumption.
+  Qed.
+
+  (* a position flagged as handed over to an auction leaves the side invariant's scope *)
+  Lemma S_bor_flag j b' : b_liq b' = true -> Side cfg L (zset B j b').
+  Proof.
+    intros Eq j' x. rewrite zget_zset. destruct (Z.eqb_spec j j') as [<-|]; [|apply HS].
+    intros H. injection H as <-. rewrite Eq. discriminate.
   Qed.
 
   Lemma S_bor_new j bn : coll_ok cfg L bn -> Side cfg L (zset B j bn).
   Proof.
     intros Hc j' x. rewrite zget_zset. destruct (Z.eqb_spec j j') as [<-|]; [|apply HS].
-    intros H. injection H as <-. exact Hc.
+    intros H. injection H as <-. intros _. exact Hc.
   Qed.
 
   Lemma S_bor_del j : Side cfg L (zdel B j).
@@ -64,15 +72,15 @@ Section SideTransitions.
 End SideTransitions.
 
 (* borrows never hang on a lend id beyond the counter, nor on a lend position without open borrows *)
-Lemma unref_fresh cfg L B S nl nb i : InvB cfg L B S nl nb -> nl < i -> forall j b, zget B j = Some b -> b_lend b <> i.
+Lemma unref_fresh cfg L B S nl nb i : InvB cfg L B S nl nb -> nl < i -> forall j b, zget B j = Some b -> b_liq b = false -> b_lend b <> i.
 Proof.
-  intros (_ & _ & Hwl & Hwb & _) Hi j b Hb E. destruct (Hwb j b Hb) as (_ & l0 & Hl0 & _).
+  intros (_ & _ & Hwl & Hwb & _) Hi j b Hb Hq E. destruct (Hwb j b Hb) as (_ & Hex). destruct (Hex Hq) as (l0 & Hl0 & _).
   apply Hwl in Hl0. lia.
 Qed.
 Lemma unref_nobids cfg L B S nl nb i l : InvB cfg L B S nl nb -> zget L i = Some l -> l_bids l = [] ->
-  forall j b, zget B j = Some b -> b_lend b <> i.
+  forall j b, zget B j = Some b -> b_liq b = false -> b_lend b <> i.
 Proof.
-  intros (_ & _ & Hwl & Hwb & _) Hl Hn j b Hb E. destruct (Hwb j b Hb) as (_ & l0 & Hl0 & Hin).
+  intros (_ & _ & Hwl & Hwb & _) Hl Hn j b Hb Hq E. destruct (Hwb j b Hb) as (_ & Hex). destruct (Hex Hq) as (l0 & Hl0 & Hin).
   rewrite E, Hl in Hl0. injection Hl0 as <-. rewrite Hn in Hin. exact Hin.
 Qed.
 
